@@ -47,6 +47,7 @@ MUT_QUERIES = [
     "mk-matrix-2/deepmut", "mk-matrix-2/ident", "mk-matrix-2/deepmut/deepmut-w", "mk-lod-2/deepmut/ident", "mk-lod-2/ident",
     "mk-nested/deepmut", "mk-matrix-3/push-a/deepmut",
     "mk-tlist-2/deepmut", "mk-tlist-2/ident", "mk-tlist-2/deepmut/deepmut-w", "mk-tlist-1/deepmut/ident", "mk-tlist-2/ident/deepmut",
+    "one/argmut-~X~/mk-list-2~E-~X~/mk-list-2~E", "lit-a/argmut-~X~/mk-dict-1~E-~X~/mk-dict-1~E/ident", "mk-list-2/argmut-~X~ident~E-~X~ident~E",
     "one/let-plain-q/num-3/getvar-plain", "one/let-mlist-zz/lit-a/getvar-mlist", "one/mutvar-mlist/num-2/getvar-mlist",
     "one/let-plain-q/firstcat-~X~/one~E/state_variable-plain",
     "-R/res.txt", "res.txt/-/ident", "-R/dir/n.json", "dir/n.json/-/cat-x", "-R/res.txt/-/cat-a/cat-b",
